@@ -46,13 +46,17 @@ J gen(uint64_t seed, bool thorough) {
   double u = r.unit();
   int ncv = u < 0.25 ? 1 : (u < 0.65 ? 2 : 3);
   std::string cvtext, names, sig;
+  // a fifth of the 2-D plans are eABF (fictitious coordinates, CZAR estimator with its own surface), and end with a second
+  // job that reads the first one's window files through inputPrefix and writes its output before any step ("run 0" merge)
+  bool eabf = ncv == 2 && r.chance(0.4);
   for (int i = 0; i < ncv; i++) {
     CvSpec c = make_cv(r, ec.natoms, kinds[r.below(5)], "v" + std::to_string(i));
     place_grid(c, m, T, r, (int)r.range(3, ncv == 3 ? 5 : 7), r.uniform(0.8, 1.4));
+    if (eabf) c.extra += "  extendedLagrangian on\n  extendedFluctuation " + num(c.width * 0.5) + "\n  extendedTimeConstant 100\n";
     cvtext += c.config(); names += (i ? " " : "") + c.name; sig += c.kind.substr(0, 4) + "+";
   }
-  sc["cvs"] = cvtext; sc["ncv"] = ncv;
-  sc["abf"] = "abf {\n  name abf\n  colvars " + names + "\n  fullSamples " + std::to_string(r.range(1, 10)) + "\n  integrate on\n  integrateTol 1e-10\n  integrateMaxIterations 100000\n" + (r.chance(0.3) ? "  applyBias off\n" : "") + "}\n";
+  sc["cvs"] = cvtext; sc["ncv"] = ncv; sc["eabf"] = eabf;
+  sc["abf"] = "abf {\n  name abf\n  colvars " + names + "\n  fullSamples " + std::to_string(r.range(1, 10)) + "\n  integrate on\n  integrateTol 1e-10\n  integrateMaxIterations 100000\n" + (r.chance(0.3) ? "  applyBias off\n" : "") + (eabf ? "  writeCZARwindowFile on\n" : "") + "}\n";
   J ops = J::arr();
   long left = T; int nseg = (int)r.range(1, 3);
   for (int s = 0; s < nseg && left > 0; s++) {
@@ -60,7 +64,8 @@ J gen(uint64_t seed, bool thorough) {
     J op = J::obj(); op["w"] = 0; op["op"] = "run"; op["n"] = (long long)n; ops.push(op); left -= n; sig += "r";
     if (s < nseg - 1 && r.chance(0.5)) { J o2 = J::obj(); o2["w"] = 0; o2["op"] = "restart"; ops.push(o2); sig += "S"; }
   }
-  sc["template"] = sig + (ec.forces_late ? "/late" : "/same");
+  if (eabf) { J o2 = J::obj(); o2["w"] = 0; o2["op"] = "merge"; ops.push(o2); sig += "M"; }
+  sc["template"] = sig + (ec.forces_late ? "/late" : "/same") + (eabf ? "/eabf" : "");
   plan["scenario"] = sc;
   plan["ops"] = ops;
   return plan;
@@ -151,6 +156,7 @@ RunResult run(J const &plan) {
     if (res.violation) break;
     std::string k = op.at("op").as_str();
     cvm::clear_error();
+    if (k == "merge") continue;
     if (k == "run") e->run((int)op.at("n").as_int(1), true);
     else if (k == "restart") {
       if (e->rec.empty()) continue;
@@ -166,6 +172,32 @@ RunResult run(J const &plan) {
       check_div(e.get(), "after restart at step " + std::to_string(at_step));
     }
   }
+  // a surface and the gradients it was integrated from: stored divergence = stencil(gradients); interior Laplacian(surface) = divergence
+  auto check_surface = [&](integrate_potential *pmf, colvar_grid_gradient *gg, std::string const &tag) {
+    if (!pmf || !gg || res.violation) return;
+    Geo h; h.nd = gg->num_variables();
+    for (size_t i = 0; i < h.nd; i++) { h.ng.push_back((int)gg->number_of_points((int)i)); h.np.push_back((int)pmf->number_of_points((int)i)); h.per.push_back(gg->periodic[i]); h.w.push_back(gg->widths[i]); }
+    if (h.nd < 2) return;
+    std::vector<cvm::real> const &div = colvars_verif_access::pot_divergence(pmf);
+    size_t total = 1; for (int n : h.np) total *= (size_t)n;
+    if (div.size() != total) { res.fail("pmf", "divergence_size/" + tag, std::to_string(div.size()) + " values for " + std::to_string(total) + " nodes"); return; }
+    double dscale = 0, gscale = 0; for (double v : div) dscale = std::max(dscale, std::fabs(v));
+    std::vector<int> ix(h.nd, 0); double res2 = 0, norm2 = 0; long interior = 0;
+    for (size_t a = 0; a < total && !res.violation; a++) {
+      double want = divergence_at(h, gg, ix); gscale = std::max(gscale, std::fabs(want));
+      if (!close_enough(div[lin(h, ix)], want, 1e-9, 1e-10 * (dscale + gscale + 1e-30))) { std::string b; for (int q : ix) b += std::to_string(q) + " "; res.fail("pmf", "divergence_differs_from_written_gradients/" + tag, "node [" + b + "]: the surface was integrated from a divergence of " + fmt_double(div[lin(h, ix)]) + ", the gradients written next to it give " + fmt_double(want)); break; }
+      bool inner = true; for (size_t i = 0; i < h.nd; i++) if (!h.per[i] && (ix[i] == 0 || ix[i] == h.np[i] - 1)) inner = false;
+      if (inner) {
+        double lap = 0, c = pmf->value(ix);
+        for (size_t i = 0; i < h.nd; i++) { std::vector<int> p = ix, m = ix; p[i] = (ix[i] + 1) % h.np[i]; m[i] = (ix[i] - 1 + h.np[i]) % h.np[i]; lap += (pmf->value(p) - 2.0 * c + pmf->value(m)) / (h.w[i] * h.w[i]); }
+        double d = lap - want; res2 += d * d; interior++;
+      }
+      norm2 += want * want;
+      for (size_t i = h.nd; i-- > 0;) { if (++ix[i] < h.np[i]) break; ix[i] = 0; }
+    }
+    if (!res.violation && interior > 0 && std::sqrt(res2) > 1e-6 * (std::sqrt(norm2) + 1e-12) + 1e-9) res.fail("pmf", "laplacian_differs_from_divergence/" + tag, "over " + std::to_string(interior) + " interior nodes |Laplacian(surface) - divergence| = " + fmt_double(std::sqrt(res2)) + ", |divergence| = " + fmt_double(std::sqrt(norm2)));
+    nodes_checked += interior; res.counters["probe.surfaces_checked/" + tag]++;
+  };
   // ---- the surface the bias writes (integration happens when output is written)
   if (!res.violation) {
     e->end_run();
@@ -205,6 +237,28 @@ RunResult run(J const &plan) {
         if (interior > 0 && std::sqrt(res2) > 1e-6 * (norm + 1e-12) + 1e-9) res.fail("pmf", "laplacian_differs_from_divergence/" + std::to_string(g.nd) + "d", "over " + std::to_string(interior) + " interior nodes |Laplacian(surface) - divergence| = " + fmt_double(std::sqrt(res2)) + ", |divergence| = " + fmt_double(norm));
         nodes_checked += interior;
       }
+      // the CZAR estimator's own surface (eABF)
+      check_surface(colvars_verif_access::abf_czar_pmf(abf), colvars_verif_access::abf_czar_gradients(abf), "czar");
+    }
+  }
+  // ---- "run 0" merge job: a fresh instance reads the window files through inputPrefix and writes its output before any step
+  bool merge = false; for (auto const &op : plan.at("ops").a) if (op.at("op").as_str() == "merge") merge = true;
+  if (!res.violation && merge && samples > 0) {
+    add_steps(res, *e);
+    e.reset();
+    ModuleStatics().load();
+    EngineCfg ec2 = ec; ec2.out_prefix = "/simfs/w0/merged";
+    e.reset(new Engine(ec2));
+    std::string abf2 = sc.at("abf").as_str(); size_t q = abf2.rfind("}"); abf2.insert(q, "  inputPrefix /simfs/w0/out\n");
+    if (e->configure(config + sc.at("cvs").as_str() + abf2) != COLVARS_OK || cvm::get_error()) { res.counters["probe.merge_refused"]++; res.detail = e->last_error(); }
+    else {
+      e->run(0, true);   // one evaluation at step 0, then the output files
+      colvarbias_abf *abf = dynamic_cast<colvarbias_abf *>(cvm::bias_by_name("abf"));
+      if (abf) {
+        check_surface(colvars_verif_access::abf_czar_pmf(abf), colvars_verif_access::abf_czar_gradients(abf), "czar_after_inputPrefix");
+        check_surface(colvars_verif_access::abf_pmf(abf), colvars_verif_access::abf_gradients(abf), "pmf_after_inputPrefix");
+        res.counters["probe.merge_jobs"]++;
+      }
     }
   }
   add_steps(res, *e);
@@ -215,7 +269,7 @@ RunResult run(J const &plan) {
   res.counters["probe.samples"] += samples;
   res.nontrivial = samples > 0 && nodes_checked > 0;
   res.class_hash = fnv_str(sc.at("template").as_str(), 16);
-  res.features = std::to_string(sc.at("ncv").as_int()) + "d" + (restarts ? "+restart" : "");
+  res.features = std::to_string(sc.at("ncv").as_int()) + "d" + (restarts ? "+restart" : "") + (sc.at("eabf").as_bool() ? "+eabf" : "");
   uint64_t fp = 1469598103934665603ULL; fp = fnv_u64((uint64_t)samples, fp);
   res.fingerprint = fnv_u64(fp, res.fingerprint);
   return res;
